@@ -294,6 +294,23 @@ func init() {
 				sc.RunForMs = 120000
 			}
 			GenCore(r, k, sc)
+			if sc.Arm == "" && r.P(150) {
+				// a pending process is stopped and started again while the goroutine of the
+				// stopped instance is still waiting for a dependency; another dependency is
+				// restarted in between, so the new instance stays Pending long after the old
+				// goroutine has finished waiting
+				a := &ProcSpec{Name: "sa", Token: "sa"}
+				b := &ProcSpec{Name: "sb", Token: "sb"}
+				d := &ProcSpec{Name: "sd", Token: "sd", DependsOn: map[string]string{"sa": "process_completed", "sb": "process_completed"}}
+				sc.Scripts["sa"] = &TokenScript{Launches: []simos.Script{{LifeMs: Pick(r, 6000, 7000)}}}
+				sc.Scripts["sb"] = &TokenScript{Launches: []simos.Script{{LifeMs: 2000}, {LifeMs: Pick(r, 8000, 9000)}}}
+				sc.Scripts["sd"] = &TokenScript{Launches: []simos.Script{{LifeMs: 1000}}}
+				sc.Project.Procs = append(sc.Project.Procs, a, b, d)
+				sc.Clients = append(sc.Clients, Client{Name: "stale", Ops: []Op{{AtMs: 1000, Op: "stop", Arg: "sd"}, {AtMs: 3000, Op: "restart", Arg: "sb"}, {AtMs: Pick(r, 4500, 5000), Op: "start", Arg: "sd"}}})
+				sc.Arm = "quiesce"
+				sc.RunForMs = 25000
+				return sc
+			}
 			if sc.Arm == "" && r.P(600) {
 				var ops []Op
 				for i := 0; i < r.Range(1, 4); i++ {
@@ -303,6 +320,25 @@ func init() {
 				sortOps(ops)
 				sc.Clients = append(sc.Clients, Client{Name: "c1", Ops: ops})
 				sc.Arm = "quiesce"
+			}
+			// state queries in flight at the instants at which commands exit (the TUI and
+			// REST clients poll all the time)
+			if r.P(700) {
+				var poll []Op
+				for _, p := range sc.Project.Procs {
+					if ts := sc.Scripts[p.Token]; ts != nil {
+						for _, l := range ts.Launches {
+							if l.LifeMs >= 0 && r.P(600) {
+								poll = append(poll, Op{AtMs: l.LifeMs, Op: Pick(r, "states", "state", "projstate"), Arg: p.Name})
+							}
+						}
+					}
+				}
+				for i := 0; i < r.Range(2, 8); i++ {
+					poll = append(poll, Op{AtMs: whenMs(r, 12000), Op: "states"})
+				}
+				sortOps(poll)
+				sc.Clients = append(sc.Clients, Client{Name: "poll", Ops: poll})
 			}
 			return sc
 		},
@@ -330,7 +366,40 @@ func init() {
 			GenCore(r, k, sc)
 			sc.OrderedShutdown = true
 			sc.RunForMs = 40000
-			sc.Clients = append(sc.Clients, Client{Name: "sd", Ops: []Op{{AtMs: whenMs(r, 10000), Op: "shutdown"}}})
+			at := whenMs(r, 10000)
+			sc.Clients = append(sc.Clients, Client{Name: "sd", Ops: []Op{{AtMs: at, Op: "shutdown"}}})
+			// replicated dependents whose replicas take different times to die
+			if r.P(300) {
+				dep := sc.Project.Procs[r.Intn(len(sc.Project.Procs))]
+				if !dep.Disabled {
+					n := r.Range(2, 4)
+					rp := &ProcSpec{Name: "rep", Token: "rep.{{.PC_REPLICA_NUM}}", Replicas: n, DependsOn: map[string]string{dep.Name: "process_started"}}
+					for i := 0; i < n; i++ {
+						sc.Scripts[fmt.Sprintf("rep.%d", i)] = &TokenScript{Launches: []simos.Script{{LifeMs: -1, TermLagMs: Pick(r, 0, 200, 800, 2500)}}}
+					}
+					sc.Project.Procs = append(sc.Project.Procs, rp)
+				}
+			}
+			// a dependent that the user is already stopping (and that dies slowly) when the
+			// shutdown begins
+			if r.P(300) && at > 200 {
+				var cands []*ProcSpec
+				for _, p := range sc.Project.Procs {
+					if len(p.DependsOn) > 0 && p.Replicas <= 1 && !p.Disabled {
+						cands = append(cands, p)
+					}
+				}
+				if len(cands) > 0 {
+					p := cands[r.Intn(len(cands))]
+					ts := sc.Scripts[p.Token]
+					for l := range ts.Launches {
+						ts.Launches[l].LifeMs = -1
+						ts.Launches[l].TermLagMs = Pick(r, 1500, 3000)
+						ts.Launches[l].Ignore = nil
+					}
+					sc.Clients = append(sc.Clients, Client{Name: "prestop", Ops: []Op{{AtMs: at - Pick(r, 100, 200), Op: Pick(r, "stop", "restart"), Arg: p.Name}}})
+				}
+			}
 			return sc
 		},
 		Check: func(sc *Scenario, res *RunResult, t *Truth) []Violation { return checkC12(sc, t) },
